@@ -166,6 +166,25 @@ CHECKS.update({
     ),
 })
 
+CHECKS.update({
+    "C08": (
+        "systematic schedule enumeration against the real worker/merge code under a synchronous process context + Hypothesis cases + real spawned runs, differential against the sequential result",
+        "Every (assignment, per-worker order) of up to 4 items over 3 workers (quick) / 6 items over 4 workers (thorough) is executed through the real "
+        "parallel_add code with an in-memory queue and synchronous processes (arguments pickled, real shared memory); worker counts 5..9, all 15 sketch "
+        "combinations, list/tuple/generator inputs and falsy items are covered; each result is compared with the sequential sketch and the C01/C03/C04/C06 bounds.",
+        "Completeness of the schedule space rests on workers owning their sketches and merging after all workers stopped (DESIGN 5.4); real OS scheduling is only sampled.",
+        "7/C08",
+    ),
+    "C19": (
+        "fault enumeration: every marking of items as ok / raise-before / raise-after and every worker death point, over enumerated schedules, in-process; real os._exit and raising runs",
+        "All 3^n fault markings (n=3 exhaustively with all schedules, n=4,5 with sampled schedules) and every (schedule, victim item) worker death are "
+        "injected into the real worker loop; a raising callback must leave exactly the other items' contributions with n_records counting successful items "
+        "only; a dead worker must make parallel_add raise within bounded polling.",
+        "In-process death = uncaught BaseException giving a non-zero exit status; real runs confirm with os._exit(3). Faults in the merge phase are outside the property.",
+        "7/C19",
+    ),
+})
+
 NOT_YET = {}
 
 
